@@ -35,6 +35,7 @@ struct %(IT)s { struct %(VEC)s *v; unsigned long idx; };
 #define %(SP)s__ctor(s) ((s)->p = 0)
 #define std_make_shared__bool_rref vf_make_shared
 #define %(VEC)s__ctor__std_vector_size_type_allocator_type_ref vf_vec_ctor_n
+#define %(VEC)s__ctor__std_vector_size_type_value_type_ref_allocator_type_ref vf_vec_ctor_fill
 #define %(VEC)s__at__1 vf_vec_at
 #define %(VEC)s__op_index__1 vf_vec_index
 #define %(VEC)s__begin__0 vf_vec_begin
@@ -100,6 +101,13 @@ void vf_make_shared(struct %(SP)s *ret, _Bool *init)
   ret->p = l;
 }
 void vf_vec_ctor_n(struct %(VEC)s *v, unsigned long n, void *alloc) { v->size = n; v->e1.p = 0; v->e2.p = 0; v->other.p = 0; }
+/* vector(n, value): n COPIES of the same shared_ptr (they all share one object) */
+void vf_vec_ctor_fill(struct %(VEC)s *v, unsigned long n, struct %(SP)s *val, void *alloc)
+{
+  v->size = n; v->e1.p = 0; v->e2.p = 0; v->other.p = 0;
+  if (vf_f1 < n) vf_sp_ctor_copy(&v->e1, val);
+  if (vf_f2 < n) vf_sp_ctor_copy(&v->e2, val);
+}
 struct %(SP)s *vf_vec_elem(struct %(VEC)s *v, unsigned long i)
 {
   if (i == vf_f1) return &v->e1;
